@@ -726,3 +726,6 @@ B("C03", BASE, _OLD_US, "            channel_states = query_channel_states_and_p
 P("C03", BASE, "            channel_state_names = list(channel.channel_states)\n            channel_state_names += self.membrane_current_names", "            channel_state_names = [*channel.channel_states, *self.membrane_current_names]")
 # the parents of a cell shifted as a whole (root included)
 B("C12", NW, "            [p.at[1:].add(self._cumsum_nbranches[i]) for i, p in enumerate(parents)]", "            [p + self._cumsum_nbranches[i] for i, p in enumerate(parents)]", "R-C12-offsets")
+# global_branch_index as a nested comprehension
+_OLD_GB = '        self.nodes["global_branch_index"] = np.repeat(\n            np.arange(self.total_nbranches), self.ncomp_per_branch\n        ).tolist()'
+P("C12", CELL, _OLD_GB, '        self.nodes["global_branch_index"] = [\n            b for b, n in enumerate(self.ncomp_per_branch) for _ in range(n)\n        ]')
